@@ -477,9 +477,14 @@ rt_gen_wellformed(vh_rng *r, struct rt_desc *d, int allow_fail)
         a->has_write = a->custom ? !vh_chance(r, 1, 5) : 1;
         cursor += a->size + gaps[vh_below(r, 4)];
     }
+    /* one table in four has an area that is left without registers on purpose (it happens by chance too, but
+     * rarely behind a populated area that it touches) */
+    const int bare = vh_chance(r, 1, 4) ? (int)vh_below(r, (uint64_t)d->nareas) : -1;
     for (int i = 0; i < d->nareas && d->nregs < RT_MAXREGS - 2; i++) {
         const struct rt_area *a = &d->area[i];
         uint32_t p = a->base;
+        if (i == bare && i != large)
+            continue;
         while (p < a->base + a->size && d->nregs < RT_MAXREGS - 2) {
             uint32_t room = a->base + a->size - p;
             unsigned x = (unsigned)vh_below(r, i == large ? 30 : 10);
